@@ -144,7 +144,6 @@ Proof. exact names_text_except_F16. Qed.
 Print Assumptions C44_valid_paths_text_name_except_F16.
 
 (* ---- non-vacuity ---- *)
-Definition bs (s : list byte) := s.
 Local Notation "'a'" := "a"%byte. Local Notation "'b'" := "b"%byte. Local Notation "'c'" := "c"%byte.
 Example C44_ex_normalize :
   normalize [[b; dot; c]; [a]; [b]; [a; dot; b]; [a; b]] = [[a]; [a; b]; [b]].
